@@ -13,18 +13,21 @@ RULE = ("case = core count 1-4 + a history of submit(deps,time limit,start failu
         "and no idle core while a task with completed dependencies waits (outside kill sequences). "
         "Non-trivial: the history contains a skipped dependent, a cancel that hit a waiting or running task, "
         "a time-out or a start failure, AND more than `cores` tasks were submitted afterwards or overall so "
-        "the bound is actually contended (max simultaneous live == cores). Distinct = SHA-1 of canonical case JSON.")
+        "the bound is actually contended (max simultaneous live == cores). Real-process tiers: random task DAGs on "
+        "a real `gwf workers` pool of 1-3 workers (peak of simultaneously alive task processes <= workers), and pools "
+        "with as many workers as CPUs, a few more, and 5, given as many independent 4-second tasks as workers by one "
+        "`gwf run`: every task starts before the first one ends. Distinct = SHA-1 of canonical case JSON.")
 ASSUMPTIONS = [
     "child processes are simulated: exit happens only when the harness says so, kill()/terminate() end the fake process at the next loop iteration",
     "the pool is single-threaded asyncio, so owning the event loop and its clock owns the schedule",
-    "bounds: <=4 cores, <=40 events per history",
+    "bounds: <=4 cores, <=40 events per history (virtual tier); up to CPUs+5 workers in the real tier",
 ]
 BUDGET = {
     "quick": {"examples": 1500, "wall_s": 60, "shards": 4},
     "thorough": {"examples": 30000, "wall_s": 1500, "shards": 16},
 }
 
-EXTRA_STRATEGIES = poolprops.real_extra(4, 64)
+EXTRA_STRATEGIES = poolprops.real_extra(4, 64) + poolprops.wide_extra()
 CASE_TIMEOUT_S = 200
 
 
